@@ -283,6 +283,29 @@ func c01Run(c *core.C, idx int) {
 			continue
 		}
 		c01CheckImage(c, v, rcT, im, T, key)
+		// the same image in a text encoding (one selection per workspace): `buf build -o` with format json / yaml /
+		// txtpb re-interprets every custom option through the image's own resolver; read back, it has to be the
+		// image the compiler produces, by the same oracle
+		if si == idx%nsel {
+			ft := []string{"json", "yaml", "txtpb"}[(idx/nsel)%3]
+			tmp := filepath.Join(c.Tmp, "c01-image."+ft)
+			targs := append([]string{}, args...)
+			targs[3] = tmp + "#format=" + ft
+			w := run.Buf(wsDir, env, nil, targs...)
+			rb := run.Buf(wsDir, env, nil, "build", tmp+"#format="+ft, "-o", "-#format=binpb")
+			os.Remove(tmp)
+			c.Eval(2)
+			tkey := key + " via " + ft
+			if w.Code != 0 || rb.Code != 0 {
+				c.Violation("text-encoding-failed", tkey, fmt.Sprintf("writing the image as %s exits %d, reading it back %d: %s %s", ft, w.Code, rb.Code, clip(w.Stderr), clip(rb.Stderr)), nil)
+			} else if tim, err := img.Parse(rb.Stdout); err != nil {
+				c.Violation("image-unparseable", tkey, err.Error(), nil)
+			} else {
+				c01CheckImage(c, v, rcT, tim, T, tkey)
+				c.Count("text_encoded_images_checked", 1)
+				c.Distinct("text_encodings", ft)
+			}
+		}
 		c.Nontrivial(fmt.Sprintf("%s sel=%s input=%s mods=%d files=%d imports=%d feat=%s", version, kind, map[bool]string{true: "root", false: "module"}[input == "."], len(s.Modules), len(v.Files), c01EdgeBucket(v), strings.Join(dedup(feat), "+")))
 		c.Distinct("selection_kinds", kind+"/"+map[bool]string{true: "root", false: "module"}[input == "."])
 	}
@@ -658,7 +681,7 @@ func init() {
 		ID:    "C01",
 		Level: "exploration",
 		Rule: "PRNG-generated workspaces (1–4 modules, v2 buf.yaml or v1 / v1beta1 buf.work.yaml, 2–6 files per module, proto2/proto3/editions/no-syntax, import DAGs with cross-module edges, WKT, public and unused imports, options, extensions, groups, services) " +
-			"× 4–5 target selections each (workspace root or one module directory; random --path/--exclude-path sets over files and directories strictly inside a module, no --path inside an --exclude-path); " +
+			"× 4–5 target selections each (one of them also written as json / yaml / txtpb and read back) (workspace root or one module directory; random --path/--exclude-path sets over files and directories strictly inside a module, no --path inside an --exclude-path); " +
 			"plus one planted compile error per error case (7 plant kinds) × 4 spellings of the input path. distinct/non-trivial = distinct (config version, selection kind, input kind, #modules, #files, import-edge bucket, feature set) classes",
 		Assumptions: []string{
 			"protocompile and protobuf-go are the trusted 'Protobuf compiler' (direct protocompile run on the same texts is the reference, with SourceInfoExtraOptionLocations as buf uses)",
@@ -667,6 +690,6 @@ func init() {
 		},
 		Cases:    func(tier string) int { return c01BuildCases(tier) + c01ErrorCases(tier) },
 		Run:      c01Run,
-		Required: []string{"descriptors_compared", "order_edges_checked", "wkt_files_checked", "unused_markers_checked", "syntax_unspecified_checked", "error_runs", "diagnostics_matched", "workspace_wkt_copy_checked"},
+		Required: []string{"descriptors_compared", "text_encoded_images_checked", "order_edges_checked", "wkt_files_checked", "unused_markers_checked", "syntax_unspecified_checked", "error_runs", "diagnostics_matched", "workspace_wkt_copy_checked"},
 	})
 }
